@@ -119,15 +119,19 @@ func c02Size(c *Ctx) (evals int64) {
 		fmt.Fprintf(&sb, "! list %d\n", id)
 		for j := 0; j < 10; j++ {
 			tag := fmt.Sprintf("t%d%d", k, j)
-			rule := "||net.size.test^$ctag=" + tag
+			rule := "||net.tracking-network-metrics.size.test^$ctag=" + tag
 			tagRule[tag] = rule
 			sb.WriteString(rule + "\n")
 			hn := fmt.Sprintf("hs%d%d.size.test", k, j)
 			hostNames = append(hostNames, hn)
 			sb.WriteString("0.0.0.0 " + hn + "\n")
 		}
+		// a rule with two tags, the first of which no request carries
+		two := fmt.Sprintf("||net.tracking-network-metrics.size.test^$ctag=a8|t%d5,important", k)
+		tagRule[fmt.Sprintf("t%d5+", k)] = two
+		sb.WriteString(two + "\n")
 		if k == len(ids)-1 {
-			sb.WriteString("@@||net.size.test^$ctag=t00\n")
+			sb.WriteString("@@||net.tracking-network-metrics.size.test^$ctag=t00\n")
 		}
 		ls = append(ls, &filterlist.StringRuleList{ID: id, RulesText: sb.String()})
 	}
@@ -148,26 +152,34 @@ func c02Size(c *Ctx) (evals int64) {
 		evals++
 		var want []string
 		allow := false
+		important := false
 		for _, t := range tags {
 			if r, ok := tagRule[t]; ok {
 				want = append(want, r)
 			}
+			if r, ok := tagRule[t+"+"]; ok {
+				want = append(want, r)
+				important = true
+			}
 			if t == "t00" {
-				want = append(want, "@@||net.size.test^$ctag=t00")
+				want = append(want, "@@||net.tracking-network-metrics.size.test^$ctag=t00")
 				allow = true
 			}
 		}
-		res, matched := e.MatchRequest(&urlfilter.DNSRequest{Hostname: "net.size.test", DNSType: 1, SortedClientTags: tags})
+		res, matched := e.MatchRequest(&urlfilter.DNSRequest{Hostname: "net.tracking-network-metrics.size.test", DNSType: 1, SortedClientTags: tags})
 		wantClass := 1
 		if allow {
 			wantClass = 2
+		}
+		if important {
+			wantClass = 3 // an important block beats the plain exception
 		}
 		if len(want) == 0 {
 			wantClass = 0
 		}
 		if got := sortedSet(netTexts(res.NetworkRules)); !eqStrings(got, sortedSet(want)) || c06ClassOfRule(res.NetworkRule) != wantClass || matched != (len(want) > 0) {
 			c.Run.Violate(ev.Violation{Pred: "dns-answer-equals-reference", Sig: map[string]any{"size_layer": "tags", "tags": len(tags)},
-				What:   fmt.Sprintf("six lists (ids %v), 60 rules for net.size.test by client tag, request with tags %v: matched=%v class=%s rules=%v; expected class=%s rules=%v", ids, tags, matched, c06ClassNames[c06ClassOfRule(res.NetworkRule)], got, c06ClassNames[wantClass], sortedSet(want)),
+				What:   fmt.Sprintf("six lists (ids %v), 60 rules for net.tracking-network-metrics.size.test by client tag, request with tags %v: matched=%v class=%s rules=%v; expected class=%s rules=%v", ids, tags, matched, c06ClassNames[c06ClassOfRule(res.NetworkRule)], got, c06ClassNames[wantClass], sortedSet(want)),
 				Replay: map[string]any{"history": []int{}}})
 			return evals
 		}
